@@ -547,6 +547,7 @@ class C14:
             env.AUDIT.start()
             oc = run_rebuild(case, world, captured)
             events = env.AUDIT.stop()
+            details = list(env.AUDIT.details)
             returned.append(oc.ret if oc.ok else oc.excname())
             decoy_first += _decoy_first(world, captured)
             counters["copy_events"] = counters.get("copy_events", 0) + sum(1 for e, _ in events if e == "shutil.copyfile")
@@ -560,7 +561,9 @@ class C14:
                 counters["snapshots_compared"] = counters.get("snapshots_compared", 0) + 1
                 if d["added"] or d["removed"] or d["changed"]:
                     viol.append(oracles.V("source-or-metafile-modified", root=os.path.relpath(r, scratch), diff=d, run=rep))
-            for ev, paths in events:
+            for (ev, paths), dt in zip(events, details):
+                if ev == "open-w" and not dt.get("flags", 0) & (os.O_CREAT | os.O_TRUNC):
+                    continue        # opening an existing file writable alters nothing by itself (snapshots judge content)
                 # the last path of copy events is the destination; every path of other events is a target
                 targets = paths[-1:] if ev in ("shutil.copyfile", "shutil.copymode", "shutil.copystat") else paths
                 for t in targets:
